@@ -28,6 +28,8 @@
           back-edge of the `for i in range(stack_len)` loop)
      P4   before the final re-check
      P5   after a rejected attempt (checkpoint "snap:retry"; back-edge of the retry loop)
+     P6   after the ACCEPTED attempt (checkpoint "snap:ok"), before the walk over the exception
+          table that computes FrameDetails.blocks (`list(_parse_exception_table(co))` is a call)
    MODELLED ASSUMPTION (not provable here, see facts_c07.py for its syntactic part): the
    pair  `assert frame.f_lasti == lasti_before` ; `obj = stack_ptr[i]`  contains no switch
    point, i.e. the world in which slot i is read is the world in which the re-check passed. *)
@@ -50,7 +52,7 @@ Record world := mkW { cur : tstate; whr : loc }.
 
 Inductive move := Stay | Goto (s : tstate) | Ret.
 
-Inductive point := P1 | P1b | P2 | P3 (i : nat) | P4 | P5.
+Inductive point := P1 | P1b | P2 | P3 (i : nat) | P4 | P5 | P6.
 
 (* static data of the code object + constants of the routine *)
 Record cfg := mkC {
@@ -62,9 +64,13 @@ Record cfg := mkC {
                          followed by `assert frame.f_lasti == lasti_before` with no call between *)
   chk_slot  : bool;   (* SrcFacts.snapshot_slot_check_adjacent: that assert immediately precedes
                          every `stack_ptr[i]` read *)
-  hdr_atomic : bool   (* SrcFacts.snapshot_capture_to_check_no_call: no call (switch point) between
+  hdr_atomic : bool;  (* SrcFacts.snapshot_capture_to_check_no_call: no call (switch point) between
                          the capture of the InterpreterFrame pointer and that first re-check, i.e.
                          switch point P1b does not exist (since /repo commit 62506a3, finding F15) *)
+  tgts : list nat;    (* handler targets of the exception-table entries, parallel to tbl *)
+  blk_from_accepted : bool
+                      (* SrcFacts.snapshot_blocks_from_accepted: the block walk starts from the variable
+                         assigned from lasti_before in the accepted attempt, not from a fresh f_lasti *)
 }.
 
 Definition done_state (c : cfg) : tstate := mkT (ret_lasti c) (Some 0) [].
@@ -196,10 +202,50 @@ Section Run.
   Definition run (w : world) : outcome * ghost * world := run_n (retries c) 0 w g0.
 End Run.
 
+(* ------------------------------------------------------------------ FrameDetails.blocks *)
+(* `idx = bisect_left(handlers, (current + 1, 0)); entry = handlers[idx - 1]`: the table is sorted
+   by start, so this is the last entry of the prefix of entries with start <= current *)
+Fixpoint last_le (t : list (nat * nat * nat * nat)) (cur : nat) (acc : option (nat * nat * nat * nat))
+  : option (nat * nat * nat * nat) :=
+  match t with
+  | [] => acc
+  | (s, e, tg, d) :: r => if s <=? cur then last_le r cur (Some (s, e, tg, d)) else acc
+  end.
+
+(* inside-out list of (handler, level); fuel = number of entries + 1 *)
+Fixpoint block_walk (fuel : nat) (t : list (nat * nat * nat * nat)) (cur : nat) : list (nat * nat) :=
+  match fuel with
+  | 0 => []
+  | S f =>
+      match last_le t cur None with
+      | Some (s, e, tg, d) => if cur <=? e then (tg, d) :: block_walk f t tg else []
+      | None => []
+      end
+  end.
+
+Definition xtbl (c : cfg) : list (nat * nat * nat * nat) :=
+  map (fun p : (nat * nat * nat) * nat => let '((s, e, d), tg) := p in (s, e, tg, d)) (combine (tbl c) (tgts c)).
+
+Definition blocks_at (c : cfg) (pos : nat) : list (nat * nat) :=
+  rev (block_walk (S (length (xtbl c))) (xtbl c) pos).
+
+(* the whole routine: snapshot, then (switch point P6) the block walk.  The result carries the
+   position the blocks were computed from. *)
+Definition inspect (c : cfg) (env : env_t) (garb : garb_t) (w : world)
+  : outcome * ghost * world * (nat * list (nat * nat)) :=
+  let '(o, g, w') := run c env garb w in
+  match o with
+  | OOk L st =>
+      let w6 := apply c (env (nretry g) P6) w' in
+      let bp := if blk_from_accepted c then L else lasti (cur w6) in
+      (o, g, w6, (bp, blocks_at c bp))
+  | _ => (o, g, w', (0, []))
+  end.
+
 (* ------------------------------------------------------------------ correspondence *)
 Definition point_eqb (p q : point) : bool :=
   match p, q with
-  | P1, P1 | P1b, P1b | P2, P2 | P4, P4 | P5, P5 => true
+  | P1, P1 | P1b, P1b | P2, P2 | P4, P4 | P5, P5 | P6, P6 => true
   | P3 i, P3 j => i =? j
   | _, _ => false
   end.
@@ -216,21 +262,23 @@ Definition no_garbage : garb_t := fun _ => HFail.
 (* observed result of the real inspect_frame: class (0 = snapshot returned, 1 = AssertionError,
    2 = RuntimeError), lasti reported by the "snap:ok" checkpoint, tokens of details.stack,
    number of "snap:retry" checkpoints passed *)
-Record sobs := mkO { o_class : nat; o_lasti : nat; o_stack : list obj; o_retries : nat }.
+Record sobs := mkO { o_class : nat; o_lasti : nat; o_stack : list obj; o_retries : nat;
+                     o_blocks : list (nat * nat) (* FrameDetails.blocks: (handler, level), outermost first *) }.
 
 Definition scase := (cfg * world * list (nat * point * move) * sobs)%type.
 
 Definition model_obs (c : cfg) (w : world) (sch : list (nat * point * move)) : sobs :=
-  let '(o, g, _) := run c (env_of sch) no_garbage w in
+  let '(o, g, _, (_, bl)) := inspect c (env_of sch) no_garbage w in
   match o with
-  | OOk L st => mkO 0 L st (nretry g)
-  | OAssert => mkO 1 0 [] (nretry g)
-  | ORuntime => mkO 2 0 [] (nretry g)
+  | OOk L st => mkO 0 L st (nretry g) bl
+  | OAssert => mkO 1 0 [] (nretry g) []
+  | ORuntime => mkO 2 0 [] (nretry g) []
   end.
 
 Definition sobs_eqb (x y : sobs) : bool :=
   (o_class x =? o_class y) && (o_lasti x =? o_lasti y)
-  && list_eqb Nat.eqb (o_stack x) (o_stack y) && (o_retries x =? o_retries y).
+  && list_eqb Nat.eqb (o_stack x) (o_stack y) && (o_retries x =? o_retries y)
+  && list_eqb (pair_eqb Nat.eqb Nat.eqb) (o_blocks x) (o_blocks y).
 
 Definition scase_ok (k : scase) : bool :=
   let '(c, w, sch, o) := k in sobs_eqb (model_obs c w sch) o.
@@ -241,7 +289,7 @@ Definition mismatches (cases : list scase) : list nat := false_indices 0 (map sc
    (a retry happened, or some read saw a world different from the initial one) *)
 Definition scase_nontrivial (k : scase) : bool :=
   let '(c, w, sch, _) := k in
-  let '(o, g, w') := run c (env_of sch) no_garbage w in
+  let '(o, g, w', _) := inspect c (env_of sch) no_garbage w in
   negb (nretry g =? 0) || negb (lasti (cur w') =? lasti (cur w))
   || match o with OOk _ st => negb (length st =? 0) | _ => true end.
 
